@@ -1,4 +1,5 @@
 //! vcheck-pure <ID> [quick|thorough]  — checks that need no source hooks.
+mod c06;
 mod c12;
 mod c13;
 mod c16;
@@ -15,6 +16,7 @@ fn main() {
         let v: serde_json::Value = serde_json::from_str(&std::fs::read_to_string(path).expect("read replay file")).expect("json");
         let w = &v["witness"];
         match v["property"].as_str().unwrap_or("") {
+            "C06" => c06::replay(w),
             "C12" => c12::replay(w),
             "C13" => c13::replay(w),
             "C16" => c16::replay(w),
@@ -27,6 +29,7 @@ fn main() {
         return;
     }
     match id {
+        "C06" => c06::main(tier),
         "C12" => c12::main(tier),
         "C13" => c13::main(tier),
         "C16" => c16::main(tier),
